@@ -244,7 +244,12 @@ class Runner:
         while pending and rounds < 6:
             rounds += 1
             json.dump({'modules': spec['modules'], 'witnesses': pending}, open(sp, 'w'))
-            p = run([IRFLOW, sp])
+            try:
+                p = run([IRFLOW, sp], timeout=1500)
+            except subprocess.TimeoutExpired as te:
+                class _P: pass
+                p = _P(); p.returncode = -99; p.stdout = te.stdout or ''; p.stderr = 'irflow exceeded the driver time-out'
+                if isinstance(p.stdout, bytes): p.stdout = p.stdout.decode('utf-8', 'replace')
             got = 0
             for l in p.stdout.splitlines():
                 if l.startswith('{'):
